@@ -9,7 +9,8 @@ From Gen Require Import M_base M_Angle M_Epoch M_Interpolation M_Coordinates M_E
 From Proofs.C08 Require Import C08_base C08_obliquity C08_sun C08_j2000.
 From Proofs.C08 Require C08_angle2 C08_frames C08_equinox C08_coarse C08_node.
 From Proofs.C08 Require C08_nut_angle C08_nut_loop C08_nut_main C08_nut_bound.
-From Proofs.C08 Require C08_true.
+From Proofs.C08 Require C08_true C08_lat C08_latj C08_uncond C08_app.
+From Proofs.C07 Require C07_mono_code.
 From Gen Require Import M_Moon.
 Import ListNotations.
 Open Scope R_scope.
@@ -295,35 +296,79 @@ Theorem C08_true_obliquity_closed : forall j, Rabs (C08_nut_main.Tc j) <= 20 ->
     Rabs deps <= 11.
 Proof. exact C08_true.true_obliquity_closed. Qed.
 
-Redirect "C08_rectangular_j2000_norm.assumptions" Print Assumptions C08_rectangular_j2000_norm.
-Redirect "C08_mean_obliquity_polynomial.assumptions" Print Assumptions C08_mean_obliquity_polynomial.
-Redirect "C08_mean_obliquity_vs_IAU.assumptions" Print Assumptions C08_mean_obliquity_vs_IAU.
-Redirect "C08_true_obliquity_is_sum.assumptions" Print Assumptions C08_true_obliquity_is_sum.
-Redirect "C08_sun_geometric_is_earth_reflected.assumptions" Print Assumptions C08_sun_geometric_is_earth_reflected.
-Redirect "C08_sun_apparent_is_earth_reflected.assumptions" Print Assumptions C08_sun_apparent_is_earth_reflected.
-Redirect "C08_reflected_longitude.assumptions" Print Assumptions C08_reflected_longitude.
-Redirect "C08_rectangular_of_date_norm.assumptions" Print Assumptions C08_rectangular_of_date_norm.
-Redirect "C08_latitude_term_small.assumptions" Print Assumptions C08_latitude_term_small.
-Redirect "C08_rectangular_j2000_closed_form.assumptions" Print Assumptions C08_rectangular_j2000_closed_form.
-Redirect "C08_rectangular_b1950_closed_form.assumptions" Print Assumptions C08_rectangular_b1950_closed_form.
-Redirect "C08_b1950_refuted.assumptions" Print Assumptions C08_b1950_refuted.
-Redirect "C08_rectangular_equinox_closed_form.assumptions" Print Assumptions C08_rectangular_equinox_closed_form.
-Redirect "C08_equinox_angles.assumptions" Print Assumptions C08_equinox_angles.
-Redirect "C08_rectangular_equinox_norm.assumptions" Print Assumptions C08_rectangular_equinox_norm.
-Redirect "C08_equinox_T_refuted.assumptions" Print Assumptions C08_equinox_T_refuted.
-Redirect "C08_true_longitude_coarse_closed_form.assumptions" Print Assumptions C08_true_longitude_coarse_closed_form.
-Redirect "C08_coarse_constants.assumptions" Print Assumptions C08_coarse_constants.
-Redirect "C08_apparent_longitude_coarse_closed_form.assumptions" Print Assumptions C08_apparent_longitude_coarse_closed_form.
-Redirect "C08_moon_node_closed_form.assumptions" Print Assumptions C08_moon_node_closed_form.
-Redirect "C08_moon_node_constants.assumptions" Print Assumptions C08_moon_node_constants.
-Redirect "C08_node_agreement.assumptions" Print Assumptions C08_node_agreement.
-Redirect "C08_true_obliquity_structure.assumptions" Print Assumptions C08_true_obliquity_structure.
-Redirect "C08_sun_errors_propagate.assumptions" Print Assumptions C08_sun_errors_propagate.
-Redirect "C08_equinox_frame_refuted.assumptions" Print Assumptions C08_equinox_frame_refuted.
-Redirect "C08_node_nutation_constants.assumptions" Print Assumptions C08_node_nutation_constants.
-Redirect "C08_nutation_longitude_structure.assumptions" Print Assumptions C08_nutation_longitude_structure.
-Redirect "C08_nutation_obliquity_structure.assumptions" Print Assumptions C08_nutation_obliquity_structure.
-Redirect "C08_nutation_remainders.assumptions" Print Assumptions C08_nutation_remainders.
-Redirect "C08_nutation_longitude_main_term.assumptions" Print Assumptions C08_nutation_longitude_main_term.
-Redirect "C08_nutation_obliquity_main_term.assumptions" Print Assumptions C08_nutation_obliquity_main_term.
-Redirect "C08_true_obliquity_closed.assumptions" Print Assumptions C08_true_obliquity_closed.
+(* ------------------------------------------------------------------------------------------
+   Round 4: the callee hypotheses discharged.  Property C07's theorems about the VSOP87 evaluator
+   (direct sum over any tables, FK5 correction, amplitude envelopes read from the regenerated tables)
+   are imported (coq/proofs/C07, compiled inside this property's build). *)
+
+(* Earth.geometric_heliocentric_position really returns the shape the reflection theorems assume,
+   for every epoch in years -2000 .. 6000, and the Earth's latitude stays below 0.00065 degree
+   (2.34 arcsec: amplitude sum 2.24 arcsec of the latitude series + FK5 term) *)
+Theorem C08_earth_callee_shape : forall jde, C07_mono_code.jde_lo <= jde <= C07_mono_code.jde_hi ->
+  exists L B R,
+    Earth_geometric_heliocentric_position Rops (epoch jde) (VBool true) = VTuple [ang L; ang B; VFloat R] /\
+    0 <= L < 360 /\ Rabs B <= 65 / 100000.
+Proof. exact C08_lat.earth_geometric_shape. Qed.
+
+(* hence, with no assumption: the Sun's geometric position is the Earth's reflected *)
+Theorem C08_sun_geometric_unconditional : forall jde, C07_mono_code.jde_lo <= jde <= C07_mono_code.jde_hi ->
+  exists L B R,
+    Earth_geometric_heliocentric_position Rops (epoch jde) (VBool true) = VTuple [ang L; ang B; VFloat R] /\
+    Sun_geometric_geocentric_position Rops (epoch jde) (VBool true) =
+      VTuple [ang (reflect_lon L); ang (- B); VFloat R] /\
+    0 <= L < 360 /\ Rabs B <= 65 / 100000.
+Proof. exact C08_lat.sun_geometric_unconditional. Qed.
+
+(* ... and the of-date rectangular coordinates have norm r to 2e-10 relative (norm^2 within
+   [r^2, r^2 (1 + 4e-10)]): the code follows Meeus in taking cos(lat) = 1; years 0 .. 4000 *)
+Theorem C08_rectangular_of_date_norm_unconditional : forall jde, Rabs (uj jde) <= 0.2 ->
+  exists lon lat R x y z,
+    Sun_geometric_geocentric_position Rops (epoch jde) (VBool true) = VTuple [ang lon; ang lat; VFloat R] /\
+    Sun_rectangular_coordinates_mean_equinox Rops (epoch jde) = VTuple [VFloat x; VFloat y; VFloat z] /\
+    R * R <= x * x + y * y + z * z <= R * R * (1 + 4 / 10000000000).
+Proof. exact C08_lat.sun_rect_of_date_norm_unconditional. Qed.
+
+(* the J2000 callee returns the assumed shape too (years -2000 .. 6000) *)
+Theorem C08_earth_j2000_callee_shape : forall jde, C07_mono_code.jde_lo <= jde <= C07_mono_code.jde_hi ->
+  exists L B R,
+    Earth_geometric_heliocentric_position_j2000 Rops (epoch jde) (VBool true) = VTuple [ang L; ang B; VFloat R] /\
+    0 <= L < 360 /\ Rabs B <= 101 / 100.
+Proof. exact C08_latj.earth_j2000_shape. Qed.
+
+(* hence the J2000 and arbitrary-equinox rectangular coordinates have norm r to 2e-12, unconditionally *)
+Theorem C08_rectangular_j2000_norm_unconditional : forall jde, C07_mono_code.jde_lo <= jde <= C07_mono_code.jde_hi ->
+  exists L B R x y z,
+    Earth_geometric_heliocentric_position_j2000 Rops (epoch jde) (VBool true) = VTuple [ang L; ang B; VFloat R] /\
+    Sun_rectangular_coordinates_j2000 Rops (epoch jde) = VTuple [VFloat x; VFloat y; VFloat z] /\
+    Rabs ((x * x + y * y + z * z) - R * R) <= 2 / 1000000000000 * (R * R).
+Proof. exact C08_uncond.j2000_norm_unconditional. Qed.
+
+Theorem C08_rectangular_equinox_norm_unconditional : forall jde jq,
+  2451545 - 110000 <= jq <= 2451545 + 110000 -> 2000000 <= jde <= 2900000 ->
+  exists R x y z,
+    (exists L B, Earth_geometric_heliocentric_position_j2000 Rops (epoch jde) (VBool true) =
+                 VTuple [ang L; ang B; VFloat R]) /\
+    Sun_rectangular_coordinates_equinox Rops (epoch jde) (epoch jq) = VTuple [VFloat x; VFloat y; VFloat z] /\
+    Rabs ((x * x + y * y + z * z) - R * R) <= 2 / 1000000000000 * (R * R).
+Proof. exact C08_uncond.equinox_norm_unconditional. Qed.
+
+(* |true obliquity - mean obliquity| <= 9.2025 + 0.00089 |T| + 0.89 arc seconds, |T| <= 20 *)
+Theorem C08_true_minus_mean_bound : forall j, Rabs (C08_nut_main.Tc j) <= 20 ->
+  exists e0 deps,
+    f_mean_obliquity Rops (VTuple [epoch j]) (VDict []) = ang e0 /\
+    f_true_obliquity Rops (VTuple [epoch j]) (VDict []) = ang (e0 + deps / 3600) /\
+    Rabs deps <= 92025 / 10000 + 89 / 100000 * Rabs (C08_nut_main.Tc j) + 89 / 100.
+Proof. exact C08_true.true_minus_mean_bound. Qed.
+
+(* the apparent variant (nutation on) with its callee hypothesis discharged, years 0 .. 4000:
+   apparent_vsop_pos on the Earth's tables = vsop_pos + FK5 + nutation (this property's structure
+   theorem) + aberration (property C07's theorems), radius vector within 0.97 .. 1.03 AU *)
+Theorem C08_sun_apparent_unconditional : forall jde, Rabs (C08_nut_main.Tc jde) <= 20 ->
+  exists L B R,
+    Earth_apparent_heliocentric_position Rops (epoch jde) (VBool true) = VTuple [ang L; ang B; VFloat R] /\
+    Sun_apparent_geocentric_position Rops (epoch jde) (VBool true) =
+      VTuple [ang (reflect_lon L); ang (- B); VFloat R] /\
+    0 <= L < 360 /\ Rabs B <= 65 / 100000 /\ 97 / 100 <= R <= 103 / 100.
+Proof. exact C08_app.sun_apparent_unconditional. Qed.
+
+(* Print Assumptions of every theorem: C08_pa_0.v .. C08_pa_9.v (compiled in parallel) *)
